@@ -97,6 +97,7 @@ def isolation(tier='quick'):
 
 # ------------------------------------------------------------------ C10
 def cache_histories(tier='quick'):
+    import warnings
     import lazy_dataset
     fails, cases = [], 0
     n = 4
@@ -104,7 +105,7 @@ def cache_histories(tier='quick'):
     ops = []
     for i in range(n):
         ops += [('idx', i), ('idx', i - n), ('key', keys[i])]
-    ops += [('iter',), ('items',), ('slice',), ('copy-idx', 1), ('copy-iter',)]
+    ops += [('iter',), ('items',), ('slice',), ('copy-idx', 1), ('copy-iter',), ('plain-copy-idx', 2), ('plain-copy-iter',)]
     L = 2 if tier == 'quick' else 3
     for hist in itertools.product(range(len(ops)), repeat=L):
         cases += 1
@@ -134,6 +135,24 @@ def cache_histories(tier='quick'):
                 got = [ds.copy(freeze=True)[op[1]]]
             elif op[0] == 'copy-iter':
                 got = list(ds.copy(freeze=True))
+            elif op[0] == 'plain-copy-idx':
+                with warnings.catch_warnings():
+                    warnings.simplefilter('ignore')
+                    got = [ds.copy()[op[1]]]
+            elif op[0] == 'plain-copy-iter':
+                with warnings.catch_warnings():
+                    warnings.simplefilter('ignore')
+                    got = list(ds.copy())
+            # positions: iteration / items / slices deliver the examples in dataset order with their own keys
+            if op[0] in ('iter', 'copy-iter', 'plain-copy-iter') and [v[0] for v in got] != list(range(n)):
+                _fail(fails, 'cache history %r' % [ops[x] for x in hist], 'iteration-in-dataset-order', got, list(range(n)))
+                return cases, fails
+            if op[0] == 'items' and [(k, v[0]) for k, v in ds.items()] != list(zip(keys, range(n))):
+                _fail(fails, 'cache history %r' % [ops[x] for x in hist], 'items-pair-keys-with-their-examples', list(ds.items()), list(zip(keys, range(n))))
+                return cases, fails
+            if op[0] == 'slice' and [v[0] for v in got] != [1, 2]:
+                _fail(fails, 'cache history %r' % [ops[x] for x in hist], 'slice-in-dataset-order', got, [1, 2])
+                return cases, fails
             for v in got:
                 first.setdefault(v[0], v)
                 if v != first[v[0]]:
@@ -142,6 +161,39 @@ def cache_histories(tier='quick'):
         if any(c > 1 for c in calls.values()):
             _fail(fails, 'cache history %r' % [ops[x] for x in hist], 'computes-each-example-at-most-once', calls, 'all counts <= 1')
             return cases, fails
+    # the cache filled COMPLETELY in every order and by every access path, then read by iteration / items / a copy
+    for perm in itertools.permutations(range(n)):
+        for mode in ('idx', 'neg', 'key', 'copy'):
+            cases += 1
+            calls = {}
+            counter = [0]
+
+            def f(x):
+                calls[x] = calls.get(x, 0) + 1
+                counter[0] += 1
+                return (x, counter[0])
+            ds = lazy_dataset.new(dict(zip(keys, range(n)))).map(f).cache()
+            with warnings.catch_warnings():
+                warnings.simplefilter('ignore')
+                cp = ds.copy()
+            first = {}
+            for i in perm:
+                v = {'idx': lambda: ds[i], 'neg': lambda: ds[i - n], 'key': lambda: ds[keys[i]], 'copy': lambda: cp[i]}[mode]()
+                first[i] = v
+            sc = 'cache filled in the order %r by %s, then read' % (perm, mode)
+            for label, got in (('iteration', list(ds)), ('second iteration', list(ds)), ('items', [v for _, v in ds.items()]),
+                               ('item keys', None), ('copy iteration', list(cp)), ('frozen copy iteration', list(ds.copy(freeze=True)))):
+                if label == 'item keys':
+                    if [k for k, _ in ds.items()] != keys:
+                        _fail(fails, sc, 'items-pair-keys-with-their-examples', list(ds.items()), keys)
+                        return cases, fails
+                    continue
+                if got != [first[i] for i in range(n)]:
+                    _fail(fails, sc + ' by ' + label, 'cached-examples-in-dataset-order', got, [first[i] for i in range(n)])
+                    return cases, fails
+            if any(c > 1 for c in calls.values()):
+                _fail(fails, sc, 'computes-each-example-at-most-once', calls, 'all counts <= 1')
+                return cases, fails
     # memory threshold: entries cached before the threshold stay frozen, later ones are not cached
     import psutil
     real = psutil.virtual_memory
@@ -293,6 +345,55 @@ def split_exhaustive(tier='quick'):
             if len(parts) != k or flat != list(range(n)) or keys != list(ds.keys()) or max(sizes) - min(sizes) > 1:
                 _fail(fails, 'len=%d split(%d)' % (n, k), 'partition', sizes, 'k consecutive balanced parts covering the dataset')
                 return cases, fails
+    # the same partition clauses on derived parents (slices, one-time shuffles, sorts, key lists, maps, concatenations,
+    # list-backed sources), with keys() / a key lookup queried BEFORE the split (cached state must not leak into shards)
+    import numpy as np
+    N2 = 9 if tier == 'quick' else 14
+    for n in range(1, N2 + 1):
+        base = lazy_dataset.new({'k%03d' % i: i for i in range(n)})
+        parents = {
+            'slice[1:]': lambda: base[1:], 'slice[::-1]': lambda: base[::-1], 'slice[::2]': lambda: base[::2],
+            'shuffle': lambda: base.shuffle(rng=np.random.RandomState(n)), 'sort': lambda: base.sort(lambda x: -x),
+            'keylist': lambda: base[[k for k in base.keys()][::-1]], 'map': lambda: base.map(lambda x: x),
+            'concatenate': lambda: base.concatenate(lazy_dataset.new({'z%d' % i: 100 + i for i in range(2)})),
+            'list-backed': lambda: lazy_dataset.new(list(range(n))), 'shard-of-shard': lambda: base.shard(1, 0),
+            'cache': lambda: base.cache(),
+        }
+        for pname, mk in parents.items():
+            for touch in (False, True):
+                ds = mk()
+                m = len(ds)
+                if m == 0:
+                    continue
+                has_keys = True
+                try:
+                    want_keys = list(mk().keys())
+                except Exception:      # noqa
+                    has_keys = False
+                if touch and has_keys:
+                    ds.keys()
+                    ds[want_keys[0]]
+                want = list(mk())
+                for k in sorted({1, 2, 3, m}):
+                    if k > m:
+                        continue
+                    cases += 1
+                    sc = '%s over %d examples%s, split(%d)' % (pname, n, ' (keys() queried before)' if touch else '', k)
+                    try:
+                        parts = ds.split(k)
+                        flat = [x for p in parts for x in p]
+                        sizes = [len(p) for p in parts]
+                        pk = [x for p in parts for x in p.keys()] if has_keys else None
+                        sh = [list(ds.shard(k, i)) for i in range(k)]
+                    except Exception as e:      # noqa
+                        _fail(fails, sc, 'split/shard of a valid count works', '%s: %s' % (type(e).__name__, str(e)[:80]), 'k parts')
+                        return cases, fails
+                    if len(parts) != k or flat != want or max(sizes) - min(sizes) > 1 or sh != [list(p) for p in parts]:
+                        _fail(fails, sc, 'partition', (sizes, flat), want)
+                        return cases, fails
+                    if has_keys and pk != want_keys:
+                        _fail(fails, sc, 'shard keys partition the keys of the dataset', pk, want_keys)
+                        return cases, fails
     return cases, fails
 
 
@@ -691,3 +792,158 @@ def c20_native(tier='quick'):
     c1, f1 = profiling_transparency(tier)
     c2, f2 = profiling_stage_counts(tier)
     return c1 + c2, f1 + f2
+
+
+def parallel_equals_sequential(tier='quick'):
+    """C04 (and the prefetch clause of C13): ds.prefetch(w, b) / ds.map(f, num_workers=w, buffer_size=b) deliver what the
+    plain sequential pipeline delivers -- values AND (key, value) pairs, over several epochs (a per-epoch reshuffle below
+    them is frozen per epoch, not once), for datasets shorter and longer than the buffer, thread backend."""
+    import numpy as np
+    import lazy_dataset
+    fails, cases = [], 0
+
+    def f(x):
+        return x * 10
+
+    def epochs(ds, items, e=3):
+        out = []
+        for _ in range(e):
+            out.append(list(ds.items()) if items else list(ds))
+        return out
+    workers = (1, 2) if tier == 'quick' else (1, 2, 3)
+    buffers = (1, 2, 4) if tier == 'quick' else (1, 2, 3, 4, 7)
+    for n in ((0, 1, 2, 5, 9) if tier == 'quick' else (0, 1, 2, 3, 5, 9, 12)):
+        def src():
+            return lazy_dataset.new({'k%d' % i: i for i in range(n)})
+        for w in workers:
+            for b in buffers:
+                if b < w:
+                    continue
+                variants = {
+                    'map(f, num_workers)': (lambda: src().map(f), lambda: src().map(f, num_workers=w, buffer_size=b)),
+                    'map(f).prefetch': (lambda: src().map(f), lambda: src().map(f).prefetch(w, b)),
+                    'reshuffle.map(f).prefetch': (lambda: src().shuffle(True, rng=np.random.RandomState(5)).map(f),
+                                                  lambda: src().shuffle(True, rng=np.random.RandomState(5)).map(f).prefetch(w, b)),
+                    'reshuffle.tile(2).prefetch': (lambda: src().shuffle(True, rng=np.random.RandomState(5)).tile(2),
+                                                   lambda: src().shuffle(True, rng=np.random.RandomState(5)).tile(2).prefetch(w, b)),
+                    'map(f).prefetch.map(f, num_workers)': (lambda: src().map(f).map(f),
+                                                             lambda: src().map(f).prefetch(w, b).map(f, num_workers=w, buffer_size=b)),
+                }
+                for name, (seq, par) in variants.items():
+                    for items in (False, True):
+                        if items and 'tile' in name:
+                            continue          # duplicate keys: items() only
+                        if n == 0 and 'tile' in name:
+                            continue
+                        cases += 1
+                        try:
+                            exp = epochs(seq(), items)
+                        except Exception:      # noqa
+                            continue
+                        try:
+                            got = epochs(par(), items)
+                        except Exception as e:      # noqa
+                            got = '%s: %s' % (type(e).__name__, str(e)[:80])
+                        if got != exp:
+                            _fail(fails, '%s, n=%d workers=%d buffer=%d, %s' % (name, n, w, b, 'items()' if items else 'values'),
+                                  'parallel = sequential over 3 epochs', got, exp)
+                            if len(fails) > 5:
+                                return cases, fails
+                        # reported length
+                        try:
+                            ls, lp = len(seq()), len(par())
+                            if ls != lp:
+                                _fail(fails, '%s, n=%d workers=%d buffer=%d' % (name, n, w, b), 'same length', lp, ls)
+                        except TypeError:
+                            pass
+    return cases, fails
+
+
+def diskcache_lifecycles(tier='quick'):
+    """C11: histories of open / access / copy / release / reopen over one cache directory, for every combination of
+    cache_dir given or None, reuse and clear: values equal the pipeline values, a reopened cache (reuse=True) serves the
+    stored examples without recomputing, a non-empty directory with reuse=False is refused, and the directory disappears
+    when the LAST dataset sharing the cache is released iff clear=True (never earlier, never otherwise)."""
+    import gc
+    import os
+    import shutil
+    import tempfile
+    import warnings
+    import lazy_dataset
+    warnings.simplefilter('ignore')
+    fails, cases = [], 0
+    n = 4
+    root = tempfile.mkdtemp(prefix='verif_c11_')
+    try:
+        for given in (True, False):
+            for clear in (True, False):
+                for order in ('release-original-first', 'release-copy-first', 'no-copy'):
+                    for fill in (0, 2, n):
+                        cases += 1
+                        calls = []
+
+                        def f(x, calls=calls):
+                            calls.append(x)
+                            return {'v': x * 10}
+                        d = os.path.join(root, 'c%d' % cases) if given else None
+                        sc = 'diskcache(cache_dir=%s, clear=%s), %d of %d examples read, %s' % ('given' if given else 'None', clear, fill, n, order)
+                        src = lazy_dataset.new(list(range(n))).map(f)
+                        ds = src.diskcache(d, reuse=False, clear=clear)
+                        directory = str(ds._cache.cache.directory)
+                        got = [ds[i] for i in range(fill)]
+                        if got != [{'v': i * 10} for i in range(fill)]:
+                            _fail(fails, sc, 'values', got, 'pipeline values')
+                        cp = ds.copy(freeze=True) if order != 'no-copy' else None
+                        survivors = []
+                        if order == 'release-original-first':
+                            del ds
+                            survivors = [cp]
+                        elif order == 'release-copy-first':
+                            del cp
+                            cp = None
+                            survivors = [ds]
+                        gc.collect()
+                        if survivors:
+                            if not os.path.isdir(directory):
+                                _fail(fails, sc, 'directory stays while a dataset sharing the cache is alive', 'removed', 'exists')
+                            else:
+                                try:
+                                    rest = [survivors[0][i] for i in range(n)]
+                                    if rest != [{'v': i * 10} for i in range(n)]:
+                                        _fail(fails, sc, 'values through the survivor', rest, 'pipeline values')
+                                except Exception as e:      # noqa
+                                    _fail(fails, sc, 'the survivor keeps working', '%s: %s' % (type(e).__name__, str(e)[:80]), 'values')
+                            filled = n
+                        else:
+                            filled = fill
+                        survivors = None
+                        ds = cp = None
+                        gc.collect()
+                        exists = os.path.isdir(directory)
+                        if exists == clear:
+                            _fail(fails, sc, 'directory removed after the last release iff clear=True',
+                                  'exists' if exists else 'removed', 'removed' if clear else 'exists')
+                        if not clear and exists:
+                            # reopen: reuse=False is refused for a non-empty directory, reuse=True serves without recomputing
+                            if filled:
+                                try:
+                                    src.diskcache(directory, reuse=False, clear=False)
+                                    _fail(fails, sc, 'a non-empty directory with reuse=False is refused', 'accepted', 'RuntimeError')
+                                except RuntimeError:
+                                    pass
+                            del calls[:]
+                            ds2 = src.diskcache(directory, reuse=True, clear=True)
+                            again = [ds2[i] for i in range(n)]
+                            if again != [{'v': i * 10} for i in range(n)]:
+                                _fail(fails, sc, 'values after reopening', again, 'pipeline values')
+                            if sorted(calls) != list(range(filled, n)):
+                                _fail(fails, sc, 'a reopened cache serves stored examples without recomputing', sorted(calls), list(range(filled, n)))
+                            del ds2
+                            gc.collect()
+                            if os.path.isdir(directory):
+                                _fail(fails, sc, 'reopened with clear=True: removed at release', 'exists', 'removed')
+                        if len(fails) > 4:
+                            return cases, fails
+    finally:
+        shutil.rmtree(root, ignore_errors=True)
+    return cases, fails
